@@ -862,6 +862,67 @@ def _norm(node_or_text):
     return re.sub(r"\s+", " ", text)
 
 
+# Methods of Step that only read the database (checked on every run by _assert_read_only): two
+# adjacent simple assignments `name = [list(]step.<getter>()[)]` that bind distinct names and do not
+# mention each other's targets commute, so their order in the source is not part of the skeleton.
+READ_ONLY_GETTERS = ("env_deps", "get_hash", "inp_paths", "out_paths", "get_state", "uses_shell",
+                     "get_env_overrides", "get_defer_count")
+_SQL_WRITE = re.compile(r"\b(INSERT|UPDATE|DELETE|REPLACE|CREATE|DROP|ALTER)\b", re.I)
+
+
+def _assert_read_only(stree, name):
+    fn = find_function(stree, name, "Step")
+    doc = fn.body[0].value if isinstance(fn.body[0], ast.Expr) else None
+    for n in ast.walk(fn):
+        if isinstance(n, ast.Constant) and isinstance(n.value, str) and n is not doc and _SQL_WRITE.search(n.value):
+            raise TranslatorError(f"Step.{name} is assumed to be a pure read but contains SQL that writes")
+        if isinstance(n, (ast.Assign, ast.AugAssign, ast.AnnAssign)):
+            targets = n.targets if isinstance(n, ast.Assign) else [n.target]
+            if any(not isinstance(t, ast.Name) for t in targets):
+                raise TranslatorError(f"Step.{name} is assumed to be a pure read but assigns to {ast.unparse(targets[0])}")
+        if isinstance(n, ast.Call) and isinstance(n.func, ast.Attribute) and n.func.attr in (
+                "executemany", "executescript", "set_state", "set_hash", "delete_hash", "mark_completed", "commit"):
+            raise TranslatorError(f"Step.{name} is assumed to be a pure read but calls {n.func.attr}")
+
+
+def _pure_read_binding(stmt):
+    """(target, getter) when `stmt` is `name = step.<getter>()` or `name = list(step.<getter>())`."""
+    if not (isinstance(stmt, ast.Assign) and len(stmt.targets) == 1 and isinstance(stmt.targets[0], ast.Name)):
+        return None
+    v = stmt.value
+    if isinstance(v, ast.Call) and isinstance(v.func, ast.Name) and v.func.id in ("list", "tuple") \
+            and len(v.args) == 1 and not v.keywords:
+        v = v.args[0]
+    if isinstance(v, ast.Call) and not v.args and not v.keywords and isinstance(v.func, ast.Attribute) \
+            and isinstance(v.func.value, ast.Name) and v.func.value.id == "step" and v.func.attr in READ_ONLY_GETTERS:
+        return stmt.targets[0].id, v.func.attr
+    return None
+
+
+def canonical_read_order(stmts, stree):
+    """`stmts` with every maximal run of adjacent independent pure-read bindings sorted by target name.
+    Independent: distinct targets, none of them `step` (the receiver of the reads)."""
+    out, run = [], []
+
+    def flush():
+        targets = [_pure_read_binding(x)[0] for x in run]
+        if len(set(targets)) == len(targets) and "step" not in targets:
+            out.extend(sorted(run, key=lambda x: _pure_read_binding(x)[0]))
+        else:
+            out.extend(run)
+        run.clear()
+    for st in stmts:
+        b = _pure_read_binding(st)
+        if b is not None:
+            _assert_read_only(stree, b[1])
+            run.append(st)
+        else:
+            flush()
+            out.append(st)
+    flush()
+    return out
+
+
 def _expect_skeleton(where, fn, expect):
     got = [_norm(s) for s in body_without_docstring(fn)]
     exp = [_norm(e) for e in expect]
@@ -999,9 +1060,11 @@ def gen_checking(ev):
     fn = find_function(tree, "_derive_job", "Scheduler")
     body = body_without_docstring(fn)
     loop = [x for x in body if isinstance(x, ast.For)][0]
-    tail = body[body.index(loop) + 1:]
+    # the two reads (stored hash, tracked environment variables) are independent pure reads of the
+    # step inside one transaction: compared in canonical (target name) order, see canonical_read_order
+    tail = canonical_read_order(body[body.index(loop) + 1:], stree)
     ttexts = [_norm(x) for x in tail]
-    if len(tail) != 8 or ttexts[:5] != ["step_hash = step.get_hash()", "env_deps = list(step.env_deps())",
+    if len(tail) != 8 or ttexts[:5] != ["env_deps = list(step.env_deps())", "step_hash = step.get_hash()",
                                         "self.job_counter += 1", "job_i = self.job_counter", "self.jobs[job_i] = step"] \
             or ttexts[6:] != ["if self.write_joblog: append_joblog_record('CREATED', job_i, job.name)", "return job"] \
             or not isinstance(tail[5], ast.If):
